@@ -139,6 +139,9 @@ impl<'w, 'r, W: Write> Serializer<'w, 'r, W> {
     }
 //@end
 }
+/// the text of an error message (the type name `concat!`ed by the macro `forward!`): unspecified
+#[verifier::external_body]
+pub fn errs_() -> &'static str { unimplemented!() }
 impl<'w, 'r, W: Write> ser::Serializer for Serializer<'w, 'r, W> {
     type Ok = WriteResult;
     type Error = SeError;
@@ -197,6 +200,17 @@ impl<'w, 'r, W: Write> ser::Serializer for Serializer<'w, 'r, W> {
             self.ser.write_empty(name)
         }
     }
+//@end
+//@extract se::Serializer::serialize_str | src/se/mod.rs :: impl<'w, 'r, W: Write> ser::Serializer for Serializer<'w, 'r, W> :: invoke forward :: fn serialize_str | serves=C13 features=serialize
+//@rewrite &concat!("`", stringify!(&str), "`") ==> errs_()
+        fn serialize_str(self, value: &str) -> (r: Result<Self::Ok, Self::Error>)
+            // a string at the top level is an element named by the root tag -- an error without one; the empty string is `<root/>`
+            ensures r is Ok ==> self.root_tag is Some, r matches Ok(x) ==> x is Element,
+                value.spec_bytes().len() == 0 && r is Ok ==> (self.root_tag matches Some(k)
+                    && (*final(self.ser.writer)).out() == (*old(self.ser.writer)).out() + self.ser.pre() + tag_empty(k.0.spec_bytes(), self.ser.expand_empty_elements)),
+        {
+            self.ser(errs_())?.serialize_str(value)
+        }
 //@end
 //@extract se::Serializer::serialize_seq | src/se/mod.rs :: impl<'w, 'r, W: Write> ser::Serializer for Serializer<'w, 'r, W> :: fn serialize_seq | serves=C13 features=serialize
     fn serialize_seq(self, len: Option<usize>) -> (r: Result<Self::SerializeSeq, Self::Error>)
